@@ -742,4 +742,275 @@ theorem bbu_unsends (c : Chan) (h : Nat) (f : Scope) (hc : c.closed = false) (hm
   have := spliceSection_unsends { c with main := mainRetracted c h } h f hcnt hfind hlt hmd
   exact ⟨this.1, this.2.1, this.2.2.trans hc⟩
 
+/-! ### delivery order of one connected block, any number of candidates -/
+
+theorem confirmLoop_noop (t h : Nat) : ∀ (l done : List Scope) (idx : Option Scope) (already : Bool),
+    (∀ f ∈ l, (confirmGuard f.confHeight && f.txid == t) = false) →
+    confirmLoop t h l (done, idx, already, false) =
+      (l.reverse ++ done, idx, already || l.any (fun f => f.confHeight != 0), false) := by
+  intro l
+  induction l with
+  | nil => intro done idx already _; simp [confirmLoop]
+  | cons f rest ih =>
+    intro done idx already hno
+    have hf := hno f List.mem_cons_self
+    have hrest : ∀ g ∈ rest, (confirmGuard g.confHeight && g.txid == t) = false :=
+      fun g hg => hno g (List.mem_cons_of_mem _ hg)
+    unfold confirmLoop
+    simp only [hf]
+    by_cases hc : (f.confHeight != 0) = true
+    · have e := ih (f :: done) idx true hrest
+      simp [hc, e]
+    · have e := ih (f :: done) idx already hrest
+      have hc' : f.confHeight = 0 := by simpa using hc
+      simp [hc', e]
+
+/-- a block that confirms no candidate (and not the funding): transactions_confirmed changes nothing -/
+theorem txs_noop (h : Nat) : ∀ (ids : List Nat) (c : Chan),
+    (c.closed = true ∨ (c.main.confHeight ≠ 0 ∧ ∀ f ∈ c.cands, f.confHeight = 0 → f.txid ∉ ids)) →
+    chanTxsConfirmed c h ids = (c, none) := by
+  intro ids
+  induction ids with
+  | nil => intro c _; rfl
+  | cons t ts ih =>
+    intro c hyp
+    unfold chanTxsConfirmed
+    by_cases hcl : c.closed = true
+    · simp [hcl]
+    · rcases hyp with hyp | ⟨hm, hno⟩
+      · exact absurd hyp hcl
+      have hclf : c.closed = false := by simpa using hcl
+      have hgm : confirmGuard c.main.confHeight = false := by simp [confirmGuard, hm]
+      have hl : ∀ f ∈ c.cands, (confirmGuard f.confHeight && f.txid == t) = false := by
+        intro f hf
+        by_cases h0 : f.confHeight = 0
+        · have := hno f hf h0
+          simp at this
+          simp [confirmGuard, h0, this.1]
+        · simp [confirmGuard, h0]
+      have hE : ({ minDepth := c.minDepth, main := c.main, cands := c.cands, sent := c.sent, best := c.best } : Chan) = c := by
+        cases c; simp_all
+      simp only [hclf, hgm, Bool.false_and, confirmLoop_noop t h c.cands [] none false hl]
+      simp
+      rw [hE]
+      exact ih c (Or.inr ⟨hm, fun f hf h0 hmem => hno f hf h0 (List.mem_cons_of_mem _ hmem)⟩)
+
+theorem bbu_main_eq (c : Chan) (h : Nat) (hc : c.closed = false) (hm0 : c.main.confHeight ≠ 0) (hmh : c.main.confHeight ≤ h) :
+    (chanBestBlockUpdated c h).1.main = c.main := by
+  obtain ⟨e1, e2⟩ := mainRetracted_eq hm0 hmh
+  unfold chanBestBlockUpdated
+  rw [if_neg (by simp [hc]), if_neg (by simp [e2]), spliceSection_main]
+  exact e1
+
+/-- Delivery-order independence of one connected block for ANY number of pending (RBF) candidates, when the block
+    confirms none of them: best-first = transactions-first = Listen block. -/
+theorem connect_order_no_candidate (c : Chan) (h : Nat) (ids : List Nat) (hcl : c.closed = false)
+    (hm0 : c.main.confHeight ≠ 0) (hmh : c.main.confHeight ≤ h) (hfh : ∀ f ∈ c.cands, f.confHeight ≤ h)
+    (hb : c.best < h) (hno : ∀ f ∈ c.cands, f.confHeight = 0 → f.txid ∉ ids) :
+    run c [.best h, .conf h ids] = run c [.conf h ids, .best h] ∧
+    run c [.block h ids] = run c [.conf h ids, .best h] := by
+  refine ⟨?_, by simp [run, step]⟩
+  have hlt : ¬ h < c.best := by omega
+  have eT := txs_noop h ids c (Or.inr ⟨hm0, hno⟩)
+  have hB : (chanBestBlockUpdated { c with best := h } h).1.closed = true ∨
+      ((chanBestBlockUpdated { c with best := h } h).1.main.confHeight ≠ 0 ∧
+        ∀ f ∈ (chanBestBlockUpdated { c with best := h } h).1.cands, f.confHeight = 0 → f.txid ∉ ids) := by
+    rcases bbu_cands_retracted { c with best := h } h with h1 | h1
+    · exact Or.inl h1
+    · right
+      refine ⟨by rw [bbu_main_eq { c with best := h } h hcl hm0 hmh]; exact hm0, fun g' hg' h0 => ?_⟩
+      obtain ⟨g, hg, ht, hch⟩ := h1 g' hg'
+      have hle := hfh g hg
+      have : ¬ h < g.confHeight := by omega
+      rw [if_neg this] at hch
+      rw [ht]
+      exact hno g hg (hch ▸ h0)
+  have eT' := txs_noop h ids _ hB
+  have hbest := bbu_best { c with best := h } h
+  simp only [run, step, mgrConf, mgrBest, List.append_nil, eT, eT', hlt, if_false, hbest, Nat.lt_irrefl]
+  simp [locksOf]
+
+/-! ### a block confirming ONE of several candidates -/
+
+def AllU (l : List Scope) : Prop := ∀ g ∈ l, g.confHeight = 0
+
+theorem confirmLoop_cons (t h : Nat) (f : Scope) (rest done : List Scope) (idx : Option Scope) (already err : Bool) :
+    confirmLoop t h (f :: rest) (done, idx, already, err) =
+      if err then confirmLoop t h rest (f :: done, idx, already, err)
+      else if confirmGuard f.confHeight && f.txid == t then
+        if already || idx.isSome then confirmLoop t h rest (recorded f h :: done, idx, already, true)
+        else confirmLoop t h rest (recorded f h :: done, some (recorded f h), already, err)
+      else if f.confHeight != 0 then confirmLoop t h rest (f :: done, idx, true, err)
+      else confirmLoop t h rest (f :: done, idx, already, err) := by
+  rw [confirmLoop]; rfl
+
+theorem confirmLoop_append (t h : Nat) : ∀ (a b : List Scope) (acc : List Scope × Option Scope × Bool × Bool),
+    confirmLoop t h (a ++ b) acc = confirmLoop t h b (confirmLoop t h a acc) := by
+  intro a
+  induction a with
+  | nil => intro b acc; simp [confirmLoop]
+  | cons f rest ih =>
+    intro b acc
+    obtain ⟨done, idx, already, err⟩ := acc
+    simp only [List.cons_append, confirmLoop_cons]
+    split
+    · exact ih _ _
+    · split
+      · split <;> exact ih _ _
+      · split <;> exact ih _ _
+
+theorem allU_any {l : List Scope} (hl : AllU l) : l.any (fun f => f.confHeight != 0) = false := by
+  simp only [List.any_eq_false]
+  intro g hg; simp [hl g hg]
+
+theorem noGuard_of {l : List Scope} {t : Nat} (hne : ∀ g ∈ l, g.txid ≠ t) :
+    ∀ f ∈ l, (confirmGuard f.confHeight && f.txid == t) = false := by
+  intro f hf; simp [hne f hf]
+
+theorem loop_one (t h : Nat) (pre suf : List Scope) (f : Scope) (hp : AllU pre) (hs : AllU suf)
+    (hne : ∀ g ∈ pre ++ suf, g.txid ≠ t) (hf0 : f.confHeight = 0) (hft : f.txid = t) :
+    confirmLoop t h (pre ++ f :: suf) ([], none, false, false) =
+      (suf.reverse ++ recorded f h :: pre.reverse, some (recorded f h), false, false) := by
+  rw [confirmLoop_append, confirmLoop_noop t h pre [] none false (noGuard_of (fun g hg => hne g (List.mem_append_left _ hg)))]
+  rw [allU_any hp]
+  have hg : (confirmGuard f.confHeight && f.txid == t) = true := by simp [confirmGuard, hf0, hft]
+  simp only [Bool.false_or, List.append_nil, confirmLoop_cons, hg, if_true, Option.isSome_none]
+  have := confirmLoop_noop t h suf (recorded f h :: pre.reverse) (some (recorded f h)) false
+    (noGuard_of (fun g hg => hne g (List.mem_append_right _ hg)))
+  rw [allU_any hs] at this
+  simpa [recorded] using this
+
+theorem countP_allU {l : List Scope} (hl : AllU l) : l.countP (fun f => f.confHeight != 0) = 0 := by
+  rw [List.countP_eq_zero]; intro g hg; simp [hl g hg]
+
+theorem find_allU {l : List Scope} (hl : AllU l) : l.find? (fun f => f.confHeight != 0) = none := by
+  rw [List.find?_eq_none]; intro g hg; simp [hl g hg]
+
+theorem map_allU {l : List Scope} (hl : AllU l) (F : Scope → Scope) :
+    l.map (fun g => if g.confHeight != 0 then F g else g) = l := by
+  conv => rhs; rw [← List.map_id l]
+  apply List.map_congr_left
+  intro g hg; simp [hl g hg]
+
+/-- all candidates unconfirmed: do_best_block_updated changes nothing -/
+theorem bbu_all_unconf (c : Chan) (h : Nat) (hcl : c.closed = false) (hu : AllU c.cands)
+    (hm0 : c.main.confHeight ≠ 0) (hmh : c.main.confHeight ≤ h) : chanBestBlockUpdated c h = (c, none) := by
+  obtain ⟨e1, e2⟩ := mainRetracted_eq hm0 hmh
+  unfold chanBestBlockUpdated
+  simp only [hcl, e1, e2]
+  simp [spliceSection, confirmedCount, countP_allU hu, find_allU hu]
+  cases c; simp_all
+
+/-- exactly one candidate confirmed, at or below `h`: do_best_block_updated only runs check_get_splice_locked -/
+theorem bbu_one_conf (c : Chan) (pre suf : List Scope) (f : Scope) (h : Nat) (hcl : c.closed = false)
+    (hc : c.cands = pre ++ f :: suf) (hp : AllU pre) (hs : AllU suf)
+    (hf0 : f.confHeight ≠ 0) (hfh : f.confHeight ≤ h) (hm0 : c.main.confHeight ≠ 0) (hmh : c.main.confHeight ≤ h) :
+    chanBestBlockUpdated c h =
+      ({ c with sent := (checkLock c.minDepth c.sent f h).1 }, (checkLock c.minDepth c.sent f h).2) := by
+  obtain ⟨e1, e2⟩ := mainRetracted_eq hm0 hmh
+  have hcf := confirmations_pos_of_le hf0 hfh
+  have hr : retractScope h c.sent f = f := by
+    unfold retractScope spliceRetractHeight spliceRetractConfIn spliceRetractScid
+    simp [hcf]
+  have hsn : spliceRetractSent (confirmations f.confHeight h) c.sent (some f.txid) c.sent = c.sent := by
+    unfold spliceRetractSent; simp [hcf]
+  have hcount : confirmedCount c.cands = 1 := by
+    simp [confirmedCount, hc, List.countP_append, List.countP_cons, countP_allU hp, countP_allU hs, hf0]
+  have hfind : c.cands.find? (fun f => f.confHeight != 0) = some f := by
+    simp [hc, List.find?_append, find_allU hp, hf0]
+  have hmap : c.cands.map (fun g => if g.confHeight != 0 then retractScope h c.sent g else g) = c.cands := by
+    simp only [hc, List.map_append, List.map_cons, map_allU hp, map_allU hs]
+    simp [hf0, hr]
+  unfold chanBestBlockUpdated
+  simp only [hcl, e1, e2]
+  simp [spliceSection, hcount, hfind, hmap, hr, hsn]
+  cases c; simp_all
+
+/-- several candidates, all unconfirmed, the block contains the txid of at most ONE of them (`f`): recorded iff present -/
+theorem txs_one (h : Nat) (h0 : h ≠ 0) (pre suf : List Scope) (f : Scope) (hp : AllU pre) (hs : AllU suf)
+    (hf : f.confHeight = 0) : ∀ (ids : List Nat) (c : Chan),
+    c.closed = false → c.cands = pre ++ f :: suf → c.main.confHeight ≠ 0 → (∀ g ∈ pre ++ suf, g.txid ∉ ids) →
+    chanTxsConfirmed c h ids =
+      if f.txid ∈ ids then
+        ({ c with cands := pre ++ recorded f h :: suf, sent := (checkLock c.minDepth c.sent (recorded f h) h).1 },
+         (checkLock c.minDepth c.sent (recorded f h) h).2)
+      else (c, none) := by
+  intro ids
+  induction ids with
+  | nil => intro c _ _ _ _; simp [chanTxsConfirmed]
+  | cons t ts ih =>
+    intro c hclf hc hm hno
+    have hgm : confirmGuard c.main.confHeight = false := by simp [confirmGuard, hm]
+    have hno' : ∀ g ∈ pre ++ suf, g.txid ∉ ts := fun g hg hmem => hno g hg (List.mem_cons_of_mem _ hmem)
+    have hne : ∀ g ∈ pre ++ suf, g.txid ≠ t := fun g hg he => hno g hg (he ▸ List.mem_cons_self)
+    by_cases ht : f.txid = t
+    · have hmem : f.txid ∈ t :: ts := by rw [ht]; exact List.mem_cons_self
+      unfold chanTxsConfirmed
+      simp only [hclf, hc, hgm, Bool.false_and, loop_one t h pre suf f hp hs hne hf ht, hmem, if_true]
+      simp
+      generalize hr : checkLock c.minDepth c.sent (recorded f h) h = r
+      obtain ⟨s', l⟩ := r
+      cases l with
+      | some l => simp
+      | none =>
+        have hs' : s' = c.sent := by
+          have := checkLock_none_fst (md := c.minDepth) (s := c.sent) (f := recorded f h) (h := h) (by rw [hr])
+          rw [hr] at this; exact this
+        simp only []
+        subst hs'
+        refine txs_noop h ts { minDepth := c.minDepth, main := c.main, cands := pre ++ recorded f h :: suf, sent := c.sent, best := c.best } (Or.inr ⟨hm, ?_⟩)
+        intro g hg hg0
+        simp only [List.mem_append, List.mem_cons] at hg
+        rcases hg with hg | rfl | hg
+        · exact hno' g (List.mem_append_left _ hg)
+        · simp [recorded] at hg0; exact absurd hg0 h0
+        · exact hno' g (List.mem_append_right _ hg)
+    · have hmem : (f.txid ∈ t :: ts) ↔ f.txid ∈ ts := by simp [ht]
+      have hl : ∀ g ∈ c.cands, (confirmGuard g.confHeight && g.txid == t) = false := by
+        intro g hg
+        rw [hc] at hg
+        simp only [List.mem_append, List.mem_cons] at hg
+        rcases hg with hg | rfl | hg
+        · simp [hne g (List.mem_append_left _ hg)]
+        · simp [ht]
+        · simp [hne g (List.mem_append_right _ hg)]
+      have hE : ({ minDepth := c.minDepth, main := c.main, cands := c.cands, sent := c.sent, best := c.best } : Chan) = c := by
+        cases c; simp_all
+      unfold chanTxsConfirmed
+      simp only [hclf, hgm, Bool.false_and, confirmLoop_noop t h c.cands [] none false hl]
+      simp [hmem]
+      rw [hE]
+      have := ih c hclf hc hm hno'
+      simpa [hclf] using this
+
+/-- Delivery-order independence for a block that confirms ONE of SEVERAL (RBF) candidates: all candidates
+    unconfirmed before (the conflicting ones cannot be in the chain), the block holds the txid of at most one. -/
+theorem connect_order_one_of_several (c : Chan) (pre suf : List Scope) (f : Scope) (h : Nat) (ids : List Nat)
+    (hcl : c.closed = false) (hc : c.cands = pre ++ f :: suf) (hp : AllU pre) (hs : AllU suf) (hf : f.confHeight = 0)
+    (hm0 : c.main.confHeight ≠ 0) (hmh : c.main.confHeight ≤ h) (hb : c.best < h)
+    (hno : ∀ g ∈ pre ++ suf, g.txid ∉ ids) :
+    run c [.best h, .conf h ids] = run c [.conf h ids, .best h] := by
+  have h0 : h ≠ 0 := by omega
+  have hlt : ¬ h < c.best := by omega
+  have hu : AllU c.cands := by
+    intro g hg; rw [hc] at hg
+    simp only [List.mem_append, List.mem_cons] at hg
+    rcases hg with hg | rfl | hg
+    · exact hp g hg
+    · exact hf
+    · exact hs g hg
+  have eB := bbu_all_unconf { c with best := h } h hcl hu hm0 hmh
+  have eT := txs_one h h0 pre suf f hp hs hf ids c hcl hc hm0 hno
+  have eT' := txs_one h h0 pre suf f hp hs hf ids { c with best := h } hcl hc hm0 hno
+  simp only [run, step, mgrConf, mgrBest, List.append_nil]
+  by_cases hmem : f.txid ∈ ids
+  · simp only [hmem, if_true] at eT eT'
+    have eC := bbu_one_conf { c with cands := pre ++ recorded f h :: suf, sent := (checkLock c.minDepth c.sent (recorded f h) h).1, best := h }
+      pre suf (recorded f h) h hcl rfl hp hs (by simpa [recorded] using h0) (by simp [recorded]) hm0 hmh
+    simp only [checkLock_idem] at eC
+    simp only [eB, eT, eT', hlt, if_false, Nat.lt_irrefl, eC]
+    simp [locksOf]
+  · simp only [hmem, if_false] at eT eT'
+    simp only [eB, eT, eT', hlt, if_false, Nat.lt_irrefl]
+
 end Ldk.FundConf
